@@ -35,8 +35,8 @@ type Engine struct{}
 func (Engine) Name() string { return "e3dial" }
 
 var runs = map[string][2]int{ // quick, thorough
-	"C17": {6000, 900000},
-	"C18": {12000, 2400000},
+	"C17": {40000, 4000000},
+	"C18": {12000, 1500000},
 }
 
 func (Engine) Runs(prop, tier string) int {
